@@ -133,7 +133,7 @@ AState(st, aid) == IF Has(st.actors, aid) THEN st.actors[aid].s ELSE "none"
 \*   slabrm  removal of a terminated child from its parent's slab (silent)
 Entry(k, id, aid, prep, tag) ==
   [k |-> k, id |-> id, aid |-> aid, prep |-> prep, tag |-> tag,
-   has |-> FALSE, val |-> 0, child |-> 0, grp |-> 0]
+   has |-> FALSE, val |-> 0, child |-> 0, grp |-> 0, code |-> ""]
 
 ReadyKind(en) == en.k \in {"retcall", "fwdcall", "slabrm"} \/ (en.k = "call" /\ ~en.prep)
 
@@ -144,7 +144,7 @@ ReadyKind(en) == en.k \in {"retcall", "fwdcall", "slabrm"} \/ (en.k = "call" /\ 
 Fate(st, en) ==
   CASE en.k = "item" -> "stay"
     [] en.k = "mark" -> "gone"
-    [] en.k = "term" -> IF AState(st, en.aid) = "zombie" THEN "gone" ELSE "stay"
+    [] en.k \in {"term", "dkill"} -> IF AState(st, en.aid) = "zombie" THEN "gone" ELSE "stay"
     [] en.k = "slabrm" -> IF AState(st, en.aid) = "prep" THEN "hold" ELSE "gone"
     [] en.k = "retcall" /\ en.prep ->     \* Ret aimed at a Prep-style function: runs only in Prep, else a no-op
          IF AState(st, en.aid) = "prep" THEN "stay" ELSE "gone"
@@ -216,8 +216,13 @@ Terminate(st, aid, cause) ==
 \* A termination by owner drop that takes effect now (vdrop/notify seen for a
 \* live actor): the term entry must be pending and reachable
 ImplicitDropTerm(st, aid) ==
-  LET f == ToFront(st, LAMBDA en : en.k = "term" /\ en.aid = aid) IN
-  IF f.found
+  LET f == ToFront(st, LAMBDA en : en.k \in {"term", "dkill"} /\ en.aid = aid) IN
+  IF f.found /\ f.en.k = "dkill"
+  THEN \* a kill queued by kill! takes effect: the owner it kept for the purpose goes with it
+       LET c == "killed:" \o f.en.code IN
+       [st |-> [Terminate(f.st, aid, c) EXCEPT !.actors[aid].own = @ - 1],
+        bad |-> B(~f.ok, "C03", "queued kill overtook earlier queued calls")]
+  ELSE IF f.found
   THEN [st |-> Terminate(f.st, aid, "dropped"),
         bad |-> B(~f.ok, "C04", "Dropped termination overtook earlier queued calls")
                 \cup B(f.st.actors[aid].s = "ready" /\ \E i \in 1..Len(f.st.actors[aid].held) : f.st.actors[aid].held[i].k = "call",
@@ -467,7 +472,7 @@ ApplyDrop(st, e) ==
   LET id == e.item IN
   IF ~e.ran /\ Has(st.items, id) /\ st.alive = "live" /\ st.items[id].aid # 0
      /\ ~st.items[id].prep /\ st.items[id].q # "query" /\ AState(st, st.items[id].aid) = "prep"
-     /\ \E i \in 1..Len(st.mainQ) : st.mainQ[i].k = "term" /\ st.mainQ[i].aid = st.items[id].aid
+     /\ \E i \in 1..Len(st.mainQ) : st.mainQ[i].k \in {"term", "dkill"} /\ st.mainQ[i].aid = st.items[id].aid
   THEN LET r0 == ImplicitDropTerm(st, st.items[id].aid)
            r1 == ApplyDrop1(r0.st, e)
        IN R(r1.st, r0.bad \cup r1.bad)
@@ -678,7 +683,9 @@ ApplySlabDrop(st, e) ==
 ApplyNotify(st, e) ==
   IF ~Has(st.actors, e.aid) THEN R(st, {}) ELSE
   LET a0 == st.actors[e.aid]
-      r0 == IF e.cause = "dropped" /\ a0.s # "zombie" /\ st.alive = "live"
+      dk == Len(e.cause) >= 6 /\ SubSeq(e.cause, 1, 6) = "killed"
+              /\ \E i \in 1..Len(st.mainQ) : st.mainQ[i].k = "dkill" /\ st.mainQ[i].aid = e.aid
+      r0 == IF (e.cause = "dropped" \/ dk) /\ a0.s # "zombie" /\ st.alive = "live"
             THEN ImplicitDropTerm(st, e.aid) ELSE R(st, {})
       a == r0.st.actors[e.aid]
       none == e.cause = "none"
@@ -954,6 +961,12 @@ Apply1(st, e) ==
     [] e.e = "acreate" -> ApplyACreate(st, e)
     [] e.e = "stop" -> ApplyDie(st, e, "stopped")
     [] e.e = "fail" -> ApplyDie(st, e, "failed:" \o e.code)
+    [] e.e = "dkill" ->
+         \* kill!(owner, ...): another owner is taken and a closure that kills through it is deferred
+         IF ~Has(st.actors, e.aid) THEN R(st, {}) ELSE
+         LET c == "killed:" \o e.code
+             s1 == [st EXCEPT !.actors[e.aid].own = @ + 1, !.actors[e.aid].issued = @ \cup {c}]
+         IN R(AppendMain(s1, [Entry("dkill", 0, e.aid, FALSE, Tag(st)) EXCEPT !.code = e.code]), {})
     [] e.e = "kill" -> ApplyKill(st, e)
     [] e.e = "kille" -> ApplyKillEnd(st, e)
     [] e.e = "owndrop" -> ApplyOwnDrop(st, e)
